@@ -54,27 +54,27 @@ StableObs(prev, s) == \A i \in 1..Len(s.occ) : \A j \in 1..Len(prev) : s.occ[i].
 
 HandleSet(s) == {<<s.hs[i][1], s.hs[i][2], s.hs[i][3], s.hs[i][4]>> : i \in 1..Len(s.hs)}
 
-\* acc = [sp: specification state, cd: as-coded state, prev: previous occurrences, bad: set of <<clause, step>>, n, dead]
+\* acc = [cd: state of the as-coded reading (its handle set is that of the specification reading: labels do not depend
+\*        on the reading), prev: previous occurrences, bad: set of <<clause, step>>, n, dead]
 TraceStep(Al, acc, s) ==
   IF acc.dead THEN acc
   ELSE IF s.out # "ok" THEN [acc EXCEPT !.bad = @ \cup {<<"outcome", acc.n>>}, !.dead = TRUE]
   ELSE
-  LET sp == Request(FALSE, Al, acc.sp, s.e)
-      cd == Request(TRUE, Al, acc.cd, s.e)
+  LET cd == Request(TRUE, Al, acc.cd, s.e)
       creates == s.e[1] \in Creates
       fo == (~creates) \/ FaithfulObs(Al, acc.prev, s)
       bad == (IF InjOcc(s.occ) THEN {} ELSE {<<"inj", acc.n>>})
              \cup (IF fo THEN {} ELSE {<<"faithful", acc.n>>})
              \cup (IF StableObs(acc.prev, s) THEN {} ELSE {<<"stable", acc.n>>})
-             \cup (IF HandleSet(s) = DOMAIN sp.ref THEN {} ELSE {<<"handles", acc.n>>})
+             \cup (IF HandleSet(s) = DOMAIN cd.ref THEN {} ELSE {<<"handles", acc.n>>})
              \cup (IF fo = cd.ok THEN {} ELSE {<<"drift", acc.n>>})
-  IN [sp |-> [key |-> sp.key, ref |-> sp.ref, bvv |-> sp.bvv], cd |-> [key |-> cd.key, ref |-> cd.ref, bvv |-> cd.bvv],
+  IN [cd |-> [key |-> cd.key, ref |-> cd.ref, bvv |-> cd.bvv],
       prev |-> s.occ, bad |-> acc.bad \cup bad, n |-> acc.n + 1, dead |-> FALSE]
 
 Empty3 == [key |-> <<>>, ref |-> <<>>, bvv |-> <<>>]
 FailingTrace(Al, tr) ==
   FoldLeft(LAMBDA acc, s : TraceStep(Al, acc, s),
-           [sp |-> Empty3, cd |-> Empty3, prev |-> <<>>, bad |-> {}, n |-> 1, dead |-> FALSE], tr.steps).bad
+           [cd |-> Empty3, prev |-> <<>>, bad |-> {}, n |-> 1, dead |-> FALSE], tr.steps).bad
 
 SeqSet(s) == {s[i] : i \in 1..Len(s)}
 FailingPool(p) ==
